@@ -280,6 +280,7 @@ func runC14(l *core.Ledger) {
 	c14G8(l, r)
 	c14G9who(l, r)
 	c14G10(l, r)
+	c14G12(l)
 	// G11: the sorter the constructors use keeps the slice it sorts (MultiSorter.nodes): a sorter shared
 	// through a package-level variable is written by every constructor call (C15's rule on globals, re-run
 	// - a configuration built while another goroutine sorts comes back unsorted or with a node twice)
@@ -1234,4 +1235,245 @@ func c14G10(l *core.Ledger, r *rt) {
 		})
 	}
 	l.Floor("C14-G10", n, 1, "stores into RawNode.addr")
+}
+
+// c14G12: the public configuration API is the generated wrapper around the raw
+// one (static code, bundled into every generated file: C17-U2 ties the bundle
+// to these sources, C17-U1 the committed files to the bundle). The algebra
+// and identity clauses of the property hold for what users call only if the
+// wrappers hand their operands on unchanged: And/Except with (receiver,
+// argument) in that order to the raw method of the same name, the option of
+// NewConfiguration itself to NewRawConfiguration with the wrapper's own
+// manager, and a wrapper node for every raw node in the raw order.
+func c14G12(l *core.Ledger) {
+	l.Rule("C14-G12", "wrapper fidelity (static code of the generated API): Configuration.And/Except hand (receiver's raw configuration, argument's raw configuration) to the raw method of the same name; NewConfiguration hands its NodeListOption and its own RawManager to NewRawConfiguration and fails when that fails; the wrapper node list is element i = wrapper of raw element i for every i (NewConfiguration, ConfigurationFromRaw, Manager.Nodes)")
+	dev := l.Prog.Pkg("cmd/protoc-gen-gorums/dev")
+	if dev == nil {
+		l.Unknown("C14-G12", "anchor/dev", token.NoPos, "static sources package not loaded")
+		return
+	}
+	sp := l.Prog.SSAPkg(dev)
+	if sp == nil {
+		l.Unknown("C14-G12", "anchor/dev", token.NoPos, "no SSA for the static sources package")
+		return
+	}
+	method := func(recv, name string) *ssa.Function {
+		for _, f := range ssaPkgFuncs(sp) {
+			if f.Name() != name || f.Parent() != nil {
+				continue
+			}
+			if recv == "" && f.Signature.Recv() == nil {
+				return f
+			}
+			if recv != "" && f.Signature.Recv() != nil {
+				t := f.Signature.Recv().Type()
+				if p, ok := t.(*types.Pointer); ok {
+					t = p.Elem()
+				}
+				if n, ok := t.(*types.Named); ok && n.Obj().Name() == recv {
+					return f
+				}
+			}
+		}
+		return nil
+	}
+	// the raw configuration embedded in v (a Configuration value or pointer parameter)
+	rawOf := func(p *ssa.Parameter) func(sx.Origin) bool {
+		return sx.IsFieldNamed("RawConfiguration", func(o sx.Origin) bool {
+			if sx.IsParam(p)(o) {
+				return true
+			}
+			// value receiver spilled / pointer deref
+			return sx.All(o.Base, sx.IsParam(p)) && len(o.Base) > 0
+		})
+	}
+	n := 0
+	for _, name := range []string{"And", "Except"} {
+		fn := method("Configuration", name)
+		key := "dev.(Configuration)." + name
+		if fn == nil {
+			l.Unknown("C14-G12", key, token.NoPos, "wrapper method not found")
+			continue
+		}
+		n++
+		ok, why := false, "no call of RawConfiguration."+name+" found"
+		sx.AllInstrs(fn, func(_ sx.Node, in ssa.Instruction) {
+			c, isCall := in.(*ssa.Call)
+			if !isCall || c.Call.StaticCallee() == nil || c.Call.StaticCallee().Signature.Recv() == nil {
+				return
+			}
+			cs := c.Call.StaticCallee()
+			if !isNamed(cs.Signature.Recv().Type(), core.RootModule, "RawConfiguration") {
+				return
+			}
+			if cs.Name() != name {
+				why = "calls RawConfiguration." + cs.Name()
+				return
+			}
+			a0 := sx.All(sx.Origins(c.Call.Args[0]), rawOf(fn.Params[0]))
+			a1 := len(c.Call.Args) > 1 && sx.All(sx.Origins(c.Call.Args[1]), rawOf(fn.Params[1]))
+			// and its result is what is returned
+			ret := false
+			for _, ref := range *c.Referrers() {
+				if r, isR := ref.(*ssa.Return); isR && len(r.Results) == 1 && r.Results[0] == ssa.Value(c) {
+					ret = true
+				}
+			}
+			if a0 && a1 && ret {
+				ok = true
+			} else {
+				why = fmt.Sprintf("receiver's raw configuration as receiver: %v, argument's as argument: %v, result returned: %v", a0, a1, ret)
+			}
+		})
+		l.Check(ok, "C14-G12", key, fn.Pos(), "hands (receiver, argument) to RawConfiguration."+name+" and returns its option", "the generated "+name+" does not hand its operands on unchanged ("+why+"): the union/difference users get is not the one the runtime computes for these operands")
+	}
+	// element-wise wrapping
+	wraps := func(fn *ssa.Function, key string, isSrc func(sx.Origin) bool, what string) {
+		n++
+		// a store nodes[i] = &Node{raw[i]} inside a range loop over the source, same index
+		ok, why := false, "no element-wise wrapping loop found"
+		sx.AllInstrs(fn, func(nd sx.Node, in ssa.Instruction) {
+			st, isSt := in.(*ssa.Store)
+			if !isSt {
+				return
+			}
+			ia, isIA := st.Addr.(*ssa.IndexAddr)
+			if !isIA || !sx.InLoop(nd) {
+				return
+			}
+			al, isAl := st.Val.(*ssa.Alloc)
+			if !isAl {
+				return
+			}
+			if n, isN := al.Type().(*types.Pointer).Elem().(*types.Named); !isN || n.Obj().Name() != "Node" {
+				return
+			}
+			fs := allocFieldStores(al)
+			rawNode := fs["RawNode"]
+			if rawNode == nil {
+				why = "the wrapper node is not given a raw node"
+				return
+			}
+			// the raw node is element idx of the source, idx = the store's index
+			good := sx.All(sx.Origins(rawNode), func(o sx.Origin) bool {
+				if o.Kind != sx.KElem || !sx.All(o.Base, isSrc) {
+					return false
+				}
+				src, isSrcIA := o.V.(*ssa.IndexAddr)
+				return isSrcIA && src.Index == ia.Index
+			})
+			if good {
+				ok = true
+			} else {
+				why = "element i of the wrapper list does not wrap element i of " + what + " (" + sx.OriginsString(sx.Origins(rawNode)) + ")"
+			}
+		})
+		// and the list is as long as the source: make([]*Node, len(src)) or Size()
+		l.Check(ok, "C14-G12", key, fn.Pos(), "wrapper node i wraps raw node i of "+what, "the generated node list does not mirror "+what+" ("+why+"): Nodes() of a configuration disagrees with the nodes its calls go to")
+	}
+	if fn := method("Manager", "NewConfiguration"); fn != nil {
+		// NewRawConfiguration(m.RawManager, v)
+		n++
+		ok, why := false, "no call of NewRawConfiguration"
+		var call *ssa.Call
+		sx.AllInstrs(fn, func(_ sx.Node, in ssa.Instruction) {
+			c, isCall := in.(*ssa.Call)
+			if !isCall || !calleeIs(&c.Call, core.RootModule+".NewRawConfiguration") {
+				return
+			}
+			call = c
+			mgrOK := sx.All(sx.Origins(c.Call.Args[0]), sx.IsFieldNamed("RawManager", sx.AnyOrigin)) && sx.All(sx.Origins(c.Call.Args[0]), func(o sx.Origin) bool {
+				return sx.All(o.Base, func(b sx.Origin) bool { return sx.IsParam(fn.Params[0])(b) })
+			})
+			// the option: an element of the variadic parameter (through the type switch)
+			optOK := sx.All(sx.Origins(c.Call.Args[1]), func(o sx.Origin) bool {
+				return rootedAtParam(o, fn.Params[1], 0)
+			})
+			if mgrOK && optOK {
+				ok = true
+			} else {
+				why = fmt.Sprintf("own manager: %v, the caller's option: %v (%s)", mgrOK, optOK, sx.OriginsString(sx.Origins(c.Call.Args[1])))
+			}
+		})
+		l.Check(ok, "C14-G12", "dev.(Manager).NewConfiguration/delegates", fn.Pos(), "NewRawConfiguration(m.RawManager, the caller's option)", "NewConfiguration does not hand its own manager and the caller's node option to NewRawConfiguration ("+why+")")
+		if call != nil {
+			// its error is returned
+			n++
+			errOK := false
+			for _, ref := range *call.Referrers() {
+				e, isE := ref.(*ssa.Extract)
+				if !isE || e.Index != 1 {
+					continue
+				}
+				for _, ifi := range ifsOn(fn, e) {
+					_ = ifi
+				}
+				m := func(o sx.Origin) bool { return o.V == ssa.Value(e) || (o.Kind == sx.KExtract && o.V == ssa.Value(call)) }
+				sx.AllInstrs(fn, func(_ sx.Node, in ssa.Instruction) {
+					if ifi, isIf := in.(*ssa.If); isIf && isErrNonNil(ifi, m) != 0 {
+						ee := errEdge(ifi, m, true)
+						// the error edge leads only to returns with a non-nil error
+						if _, bad := sx.Reach(sx.Node{B: ee.To, I: -1}, func(x sx.Node) bool {
+							r, isR := x.Instr().(*ssa.Return)
+							if !isR {
+								return false
+							}
+							k, isK := r.Results[len(r.Results)-1].(*ssa.Const)
+							return isK && k.IsNil()
+						}, sx.Query{}); !bad {
+							errOK = true
+						}
+					}
+				})
+			}
+			l.Check(errOK, "C14-G12", "dev.(Manager).NewConfiguration/error", call.Pos(), "a failing raw constructor fails NewConfiguration", "NewConfiguration can return success although NewRawConfiguration failed: the user gets a configuration the runtime rejected (empty, address mismatch, unknown id)")
+			isRaw := func(o sx.Origin) bool {
+				if (o.Kind == sx.KEscaped || o.Kind == sx.KAlloc) && o.V != nil {
+					// the wrapper under construction, whose only slice is the raw configuration it was just given
+					if pt, isP := o.V.Type().(*types.Pointer); isP {
+						if nt, isN := pt.Elem().(*types.Named); isN && nt.Obj().Name() == "Configuration" {
+							return true
+						}
+					}
+				}
+				return (o.Kind == sx.KExtract && o.V == ssa.Value(call)) || (o.Kind == sx.KField && o.Field != nil && o.Field.Name() == "RawConfiguration")
+			}
+			wraps(fn, "dev.(Manager).NewConfiguration/nodes", isRaw, "the raw configuration")
+		}
+	} else {
+		l.Unknown("C14-G12", "dev.(Manager).NewConfiguration", token.NoPos, "not found")
+	}
+	if fn := method("", "ConfigurationFromRaw"); fn != nil {
+		wraps(fn, "dev.ConfigurationFromRaw/nodes", func(o sx.Origin) bool {
+			return sx.IsParam(fn.Params[0])(o) || (o.Kind == sx.KField && o.Field != nil && o.Field.Name() == "RawConfiguration")
+		}, "the raw configuration")
+	}
+	if fn := method("Manager", "Nodes"); fn != nil {
+		wraps(fn, "dev.(Manager).Nodes/nodes", func(o sx.Origin) bool {
+			c, isC := o.V.(*ssa.Call)
+			return o.Kind == sx.KCall && isC && c.Call.StaticCallee() != nil && c.Call.StaticCallee().Name() == "Nodes"
+		}, "RawManager.Nodes()")
+	}
+	l.Floor("C14-G12", n, 6, "wrapper obligations in the static code")
+}
+
+func rootedAtParam(o sx.Origin, p *ssa.Parameter, depth int) bool {
+	if depth > 5 {
+		return false
+	}
+	if sx.IsParam(p)(o) {
+		return true
+	}
+	if ta, isTA := o.V.(*ssa.TypeAssert); isTA && (o.Kind == sx.KExtract || o.Kind == sx.KUnOp || o.Kind == sx.KUnknown) {
+		return sx.All(sx.Origins(ta.X), func(b sx.Origin) bool { return rootedAtParam(b, p, depth+1) })
+	}
+	if len(o.Base) == 0 {
+		return false
+	}
+	for _, b := range o.Base {
+		if !rootedAtParam(b, p, depth+1) {
+			return false
+		}
+	}
+	return true
 }
